@@ -102,6 +102,7 @@ type Ctx struct {
 	evaluations int
 	distinct    map[string]struct{}
 	samples     []any
+	fallback    any // first sample seen (used when no non-trivial case supplied one)
 	counters    map[string]int64
 	sets        map[string]map[string]struct{}
 	extra       map[string]any
@@ -277,6 +278,9 @@ func (c *Ctx) Case(fp string, nontrivial bool, sample any) {
 	c.mu.Lock()
 	defer c.mu.Unlock()
 	c.evaluations++
+	if sample != nil && c.fallback == nil {
+		c.fallback = sample
+	}
 	if nontrivial {
 		c.distinct[fp] = struct{}{}
 		if sample != nil && len(c.samples) < 3 {
@@ -419,8 +423,12 @@ func (c *Ctx) finish() int {
 	for k, v := range c.extra {
 		cov[k] = v
 	}
-	if c.samples == nil {
-		cov["samples"] = []any{}
+	if len(c.samples) == 0 {
+		if c.fallback != nil {
+			cov["samples"] = []any{c.fallback}
+		} else {
+			cov["samples"] = []any{}
+		}
 	}
 	ev := map[string]any{
 		"property_id": c.Prop, "tier": c.Tier, "seed": c.Seed, "level": c.Level,
